@@ -292,4 +292,5 @@ pub fn run(ctx: &mut Ctx, prop: &str) {
         }
     }
     crate::spaces::render_probes(ctx, ops);
+    crate::spaces::type_grid_probes(ctx, ops);
 }
